@@ -2,5 +2,6 @@ SPECIFICATION MSpec
 INVARIANT TypeOK
 INVARIANT NoSharedSecret
 INVARIANT NoNonceReuse
+INVARIANT ReconfiguredFresh
 INVARIANT GeneratorFresh
 CHECK_DEADLOCK FALSE
